@@ -310,7 +310,7 @@ static int rngMode()
             withRng(t[1], [&](ompl::RNG &r) {
                 return std::to_string(r.uniformInt((int)*vp::parseInt(t[2]), (int)*vp::parseInt(t[3])));
             });
-        else if (op == "hni" && t.size() == 5 && intsOk(t[2], t[3]) && vp::parseBits(t[4]))
+        else if (op == "hni" && t.size() == 5 && intsFull(t[2], t[3]) && vp::parseBits(t[4]))
             withRng(t[1], [&](ompl::RNG &r) {
                 return std::to_string(
                     r.halfNormalInt((int)*vp::parseInt(t[2]), (int)*vp::parseInt(t[3]), *vp::parseBits(t[4])));
@@ -739,6 +739,91 @@ static bool buildProblem(const std::string &env, Counters *c, Problem &p)
     return true;
 }
 
+
+// ---- decompositions for Syclop (control) and XXL (geometric, SE(2)) ----
+#include <ompl/control/planners/syclop/SyclopRRT.h>
+#include <ompl/control/planners/syclop/SyclopEST.h>
+#include <ompl/control/planners/syclop/GridDecomposition.h>
+#include <ompl/geometric/planners/xxl/XXL.h>
+#include <ompl/geometric/planners/xxl/XXLPlanarDecomposition.h>
+
+// 4x4 grid over the two leading real coordinates of the state (works for RealVector and for the zero-weight compound)
+class LeadingXYDecomposition : public oc::GridDecomposition
+{
+public:
+    LeadingXYDecomposition(const ob::StateSpacePtr &space, const ob::RealVectorBounds &b)
+      : oc::GridDecomposition(4, 2, b), space_(space)
+    {
+    }
+    void project(const ob::State *s, std::vector<double> &coord) const override
+    {
+        std::vector<double> r;
+        space_->copyToReals(r, s);
+        coord = {r[0], r[1]};
+    }
+    void sampleFullState(const ob::StateSamplerPtr &sampler, const std::vector<double> &coord, ob::State *s) const override
+    {
+        sampler->sampleUniform(s);
+        std::vector<double> r;
+        space_->copyToReals(r, s);
+        r[0] = coord[0];
+        r[1] = coord[1];
+        space_->copyFromReals(s, r);
+    }
+
+private:
+    ob::StateSpacePtr space_;
+};
+
+// point "robot" in SE(2): one layer, the state's own (x, y, yaw)
+class PointSE2Decomposition : public og::XXLPlanarDecomposition
+{
+public:
+    PointSE2Decomposition(const ob::StateSpacePtr &space, const ob::RealVectorBounds &b)
+      : og::XXLPlanarDecomposition(b, {4, 4}, 2), space_(space)
+    {
+    }
+    int numLayers() const override
+    {
+        return 1;
+    }
+    bool sampleFromRegion(int r, ob::State *s, const ob::State *seed = nullptr) const override
+    {
+        return sampleFromRegion(r, s, seed, 0);
+    }
+    bool sampleFromRegion(int r, ob::State *s, const ob::State *, int) const override
+    {
+        std::vector<double> coord(3);
+        sampleCoordinateFromRegion(r, coord);
+        auto *se2 = s->as<ob::SE2StateSpace::StateType>();
+        se2->setXY(coord[0], coord[1]);
+        se2->setYaw(coord[2]);
+        return true;
+    }
+    void project(const ob::State *s, std::vector<double> &coord, int = 0) const override
+    {
+        auto *se2 = s->as<ob::SE2StateSpace::StateType>();
+        coord = {se2->getX(), se2->getY(), se2->getYaw()};
+    }
+    void project(const ob::State *s, std::vector<int> &layers) const override
+    {
+        std::vector<double> coord;
+        project(s, coord, 0);
+        layers = {coordToRegion(coord)};
+    }
+
+private:
+    ob::StateSpacePtr space_;
+};
+
+static ob::RealVectorBounds unitBounds2()
+{
+    ob::RealVectorBounds b(2);
+    b.setLow(0.);
+    b.setHigh(1.);
+    return b;
+}
+
 using Factory = std::function<ob::PlannerPtr(Problem &)>;
 
 template <class T>
@@ -820,11 +905,33 @@ static const std::map<std::string, Factory> &factories()
              pl->setIntermediateStates(true);
              return pl;
          }},
-        {"PRM:construct", geo<og::PRM>()},
-        {"PRMstar:construct", geo<og::PRMstar>()},
+        {"PRM:growexpand", geo<og::PRM>()},
+        {"PRMstar:growexpand", geo<og::PRMstar>()},
         {"SPARS:construct", geo<og::SPARS>()},
         {"SPARStwo:construct", geo<og::SPARStwo>()},
         {"SPARSdb:addpath", geo<ompl::geometric::SPARSdb>()},
+        {"control::SyclopRRT", [](Problem &p) -> ob::PlannerPtr {
+             if (!p.csi)
+                 return nullptr;
+             auto pl = std::make_shared<oc::SyclopRRT>(
+                 p.csi, std::make_shared<LeadingXYDecomposition>(p.csi->getStateSpace(), unitBounds2()));
+             pl->setNumFreeVolumeSamples(300);  // the default 100000 validity checks would eat every budget
+             return pl;
+         }},
+        {"control::SyclopEST", [](Problem &p) -> ob::PlannerPtr {
+             if (!p.csi)
+                 return nullptr;
+             auto pl = std::make_shared<oc::SyclopEST>(
+                 p.csi, std::make_shared<LeadingXYDecomposition>(p.csi->getStateSpace(), unitBounds2()));
+             pl->setNumFreeVolumeSamples(300);  // the default 100000 validity checks would eat every budget
+             return pl;
+         }},
+        {"XXL", [](Problem &p) -> ob::PlannerPtr {
+             if (p.csi || !dynamic_cast<ob::SE2StateSpace *>(p.si->getStateSpace().get()))
+                 return nullptr;
+             return std::make_shared<og::XXL>(
+                 p.si, std::make_shared<PointSE2Decomposition>(p.si->getStateSpace(), unitBounds2()));
+         }},
         {"control::RRT", ctl<oc::RRT>()},
         {"control::SST", ctl<oc::SST>()},
         {"control::EST", ctl<oc::EST>()},
@@ -1075,7 +1182,7 @@ static int planMode()
                 const unsigned long cap = c.polls + 2UL * *vp::parseNat(a["budget"]) + 2000UL;
                 c.budget = budget;
                 ob::PlannerStatus st;
-                if (a["planner"].size() > 10 && a["planner"].substr(a["planner"].size() - 10) == ":construct")
+                if (a["planner"].find(":construct") != std::string::npos || a["planner"].find(":growexpand") != std::string::npos)
                 {
                     // the roadmap planners' single-threaded entry point (solve() starts a second thread)
                     ob::PlannerTerminationCondition ptc([&c, budget, cap] {
@@ -1083,7 +1190,18 @@ static int planMode()
                         return c.evals >= budget || c.polls >= cap;
                     });
                     if (auto *prm = dynamic_cast<og::PRM *>(planner.get()))
-                        prm->constructRoadmap(ptc);
+                    {
+                        // PRM::constructRoadmap itself alternates grow/expand in WALL-CLOCK slices (0.4 s / 0.2 s): not
+                        // reproducible by design.  Its two constituents are driven instead, under counting conditions:
+                        // grow for the first two thirds of the budget, expand for the rest.
+                        const unsigned long mid = c.evals + 2 * *vp::parseNat(a["budget"]) / 3;
+                        ob::PlannerTerminationCondition ptcGrow([&c, mid, cap] {
+                            ++c.polls;
+                            return c.evals >= mid || c.polls >= cap;
+                        });
+                        prm->growRoadmap(ptcGrow);
+                        prm->expandRoadmap(ptc);
+                    }
                     else if (auto *sp = dynamic_cast<og::SPARS *>(planner.get()))
                         sp->constructRoadmap(ptc);
                     else if (auto *s2 = dynamic_cast<og::SPARStwo *>(planner.get()))
@@ -1479,7 +1597,7 @@ int main()
     if (!vp::readLine(line))
         return 2;
     auto hdr = vp::tokens(line);
-    if ((hdr.size() == 2 || (hdr.size() == 3 && hdr[2] == "copies=rebind")) && hdr[0] == "rng" && hdr[1].rfind("clock=", 0) == 0)
+    if (hdr.size() >= 2 && hdr.size() <= 4 && hdr[0] == "rng" && hdr[1].rfind("clock=", 0) == 0)
         return rngMode();
     if (hdr.size() == 1 && hdr[0] == "plan")
         return planMode();
